@@ -368,6 +368,31 @@ def configShapeOk : Bool := {'true' if not why else 'false'}{shape}
 """
 
 
+def extract_aliases():
+    """groups of names of the formula namespace ({**TRANSFORMS, **ENCODINGS}) that are bound to one
+    and the same object (read from the live module by identity)"""
+    import json
+    why, groups = [], []
+    try:
+        if REPO not in sys.path:
+            sys.path.insert(0, REPO)
+        from formulae.transforms import TRANSFORMS
+        from formulae.categorical import ENCODINGS
+        ns = {**TRANSFORMS, **ENCODINGS}
+        by_id = {}
+        for k in sorted(ns):
+            by_id.setdefault(id(ns[k]), []).append(k)
+        groups = sorted(g for g in by_id.values())
+    except Exception as e:  # noqa
+        why.append(f"cannot import the registries: {e}")
+    txt = "[" + ", ".join("[" + ", ".join(json.dumps(x) for x in g) + "]" for g in groups) + "]"
+    shape = "".join(f"\n-- shape: {w}" for w in why)
+    return f"""def aliasGroups : List (List String) := {txt}
+
+def aliasShapeOk : Bool := {'true' if not why else 'false'}{shape}
+"""
+
+
 KNOWN_KINDS = None
 
 
@@ -388,6 +413,7 @@ def generate():
     parts.append(extract_config())
     from extract_c14 import extract_transforms, lean_transforms_table
     parts.append(lean_transforms_table(extract_transforms()))
+    parts.append(extract_aliases())
     parts.append("end FormulaeModel.Generated\n")
     return "\n".join(parts), dict(parser=p, resolver=r)
 
